@@ -121,7 +121,7 @@ for _n, _c in [('time_ts_plus_dur', 't + d is the chrono result or an error when
                     claim=_c, vars=None)
 
 ALL_UNITS = ['value_arith', 'value_cmp', 'value_coll', 'macros', 'preresolved', 'interp', 'interp_vm_g0', 'interp_vm_g1', 'interp_vm_g2', 'interp_vm_g3',
-             'interp_vm_g4', 'interp_vm_g5', 'interp_vm_g6', 'interp_vm_g7', 'builtins', 'wiring', 'parser', 'json', 'compprog', 'parser_expr', 'parser_unary', 'parser_match', 'scanner']
+             'interp_vm_g4', 'interp_vm_g5', 'interp_vm_g6', 'interp_vm_g7', 'builtins', 'wiring', 'parser', 'json', 'compprog', 'parser_expr', 'parser_unary', 'parser_match', 'scanner', 'tokenizer']
 
 PROPS = {
     'C02': dict(
@@ -131,6 +131,14 @@ PROPS = {
                      'whitespace independence (tokenizer not under contract)'],
         assumptions=['the Tokenizer trait is modelled by a ghost token sequence and a cursor (peek does not move, next advances by one)', 'the label counter does not overflow (2^32 labels)'],
     ),
+    'C13': dict(
+        units=['tokenizer', 'parser_unary'],
+        level_text='PARTIAL. Proved for all inputs on the real tokenizer / parser functions: (1) every escape of a quoted string literal pushes exactly the character the CEL escape denotes (one named obligation per escape: a b f n r t v, backslash, quotes, \\xHH \\uHHHH \\UHHHHHHHH = the code point of exactly that many hex digits and only if it is a Unicode scalar value, three-digit octal); (2) the number scanner collects exactly the characters it consumes and hands exactly that text to std: radix 16 iff the 0x marker (stripped), a trailing u/U selects the unsigned token, otherwise int or float parse of the same text; (3) parse_primary turns each literal token into the constant it carries (int literals: for values up to i64::MAX). The value std computes from a digit string (from_str_radix, parse::<f64>, char::from_u32) is assumed.',
+        not_covered=['integer literals above i64::MAX wrap instead of being rejected (known, unrepaired: the repair needs a negative-literal rule so that -9223372036854775808 stays expressible; no obligation is stated for that range)',
+                     'byte-string literals (parse_bytes_literal), f-string segmentation, keywords/identifiers, the dispatch on the first character in collect_next_token: not under contract',
+                     'what std computes: from_str_radix, str::parse::<f64> (correct rounding), char::from_u32 are assumed'],
+        assumptions=['inputs shorter than 2 GiB (the f-string brace depth counter is an i32)', 'std: from_str_radix / parse::<f64> / char::from_u32 / is_digit(16) / is_ascii_hexdigit / trim_start_matches as specified in the trampolines'],
+    ),
     'C17': dict(
         units=['parser', 'compprog', 'parser_expr', 'parser_unary'],
         level_text='PARTIAL: for the five binary precedence levels the reported identifier set of a node is proved to be exactly the union of its operands\' sets (nothing dropped, nothing invented). Identifier primaries, calls, macros, f-strings, ternary and match (where the pinned tree drops names, F13) are NOT under contract, nor is filter_from_bindings.',
@@ -138,7 +146,7 @@ PROPS = {
         assumptions=['ProgramDetails::union_from is set union (HashSet, std)'],
     ),
     'C18': dict(
-        units=['parser', 'parser_expr', 'parser_unary', 'scanner'],
+        units=['parser', 'parser_expr', 'parser_unary', 'scanner', 'tokenizer'],
         level_text='PARTIAL: for the five binary precedence levels the span of a node is proved to be exactly the hull of its first operand\'s span and its last operand\'s span (so children are contained in parents). Token spans, primaries, unary/postfix nodes, line/column tracking and syntax-error locations are NOT under contract.',
         not_covered=['token spans and line/column tracking (string_scanner / string_tokenizer)', 'primaries, unary, member nodes, ternary, match', 'syntax error locations', 're-compiling the spanned text'],
         assumptions=['SourceRange::surrounding is the hull (min of starts, max of ends; derive(Ord) on SourceLocation)'],
@@ -162,9 +170,9 @@ PROPS = {
     'C16': dict(
         units=['wiring', 'value_arith', 'value_cmp'],
         kani_quick=[],
-        kani_thorough=['time_ts_plus_dur', 'time_dur_plus_ts_commutes', 'time_ts_minus_dur', 'time_ts_minus_ts_roundtrip', 'time_dur_plus_minus_dur', 'time_ordering_is_chronological'],
+        kani_thorough=['time_dur_plus_minus_dur'],   # the five timestamp harnesses (kani/cel_value.rs) do not finish within 40 min of CBMC on chrono's checked_add_signed: not registered
         not_covered=['calendar correctness per IANA zone and DST (chrono / chrono-tz tables, external data)', 'uomConvert (uom internals, floating point chains)',
-                     'in the quick tier the arithmetic is proved over an uninterpreted chrono model (representability = chrono\'s checked_* result); the thorough tier runs the real chrono code under Kani'],
+                     'timestamp arithmetic is proved over an uninterpreted chrono model (representability = chrono\'s checked_* result); only duration + / - runs the real chrono code under Kani (thorough tier): the five timestamp harnesses exceed 40 min of CBMC each (tool limit) and are not registered'],
         assumptions=['chrono checked_add_signed / checked_sub_signed / Duration::checked_add / checked_sub return None exactly when the result is not representable'],
     ),
     'C15': dict(
